@@ -68,8 +68,9 @@ CLAIMED = {
         "edges contain the value (left-open, first bin closed), bin numbers are monotone in the value, equal values share a bin; quantile/uniform give at most n_bins groups incl. the null bin; strings: the most frequent "
         "categories are kept with ties in natural order, k >= 2 pooled categories, label 'other k' is fresh against every category (and every declared enum category), label is the count for k < 1000. "
         "Tie: correspondence with the real bin_feature over float/int/bool/str/Categorical/Enum features with null/NaN/inf, 10 bin methods. Three genuine defects were found and repaired (fixes 3ff5ebb, f02e33e, 9ce4ae5).",
-   note="Partial: numpy's eight histogram rules are not rational; their interior edges enter the model as data (sortedness is a hypothesis of bin_contains for them). np.quantile(inverted_cdf) is modelled by its definition. "
-        "Known finding: columns whose only non-null values are +-inf raise TypeError / give NaN edges.",
+   note="Partial: five of numpy's eight histogram rules (auto, fd, doane, scott, stone) are not rational; their interior edges enter the model as data (sortedness is a hypothesis of bin_contains for them). sturges (the library default), sqrt and rice "
+        "are computed inside Coq incl. binary64 rounding of the edges (model/NumpyRules.v) and compared with np.histogram_bin_edges bit for bit. np.quantile(inverted_cdf) is modelled by its definition. "
+        "Known findings: columns whose only non-null values are +-inf; float range overflow / adjacent floats inside np.histogram_bin_edges.",
    technique="Coq proof (list induction) + vm_compute correspondence + judge by brute force", ref="4 C13"),
 
  "C17": dict(
